@@ -33,6 +33,8 @@ var nondetOK = map[string]map[string]string{
 	"distribution.AppModule.BeginBlock": {"time.Now": "only use is telemetry.ModuleMeasureSince (metrics, not state)"},
 }
 
+var extraC18 func(c *Ctx, fns []*ssa.Function)
+
 func runC18(c *Ctx) {
 	pkgs := []string{"pk", "pt", "ck", "ct", "provider", "consumer", "ccv", "demodist", "nvstaking", "nvgenutil", modPath + "/x/ccv/democracy", modPath + "/x/ccv/provider/migrations", modPath + "/x/ccv/consumer/migrations"}
 	var fns []*ssa.Function
@@ -115,6 +117,10 @@ func runC18(c *Ctx) {
 		}
 	}
 	c.Check(nRange >= 3, "module/map-ranges", nil, fmt.Sprintf("%d ranges over maps examined", nRange))
+
+	if extraC18 != nil {
+		extraC18(c, fns)
+	}
 
 	// ---- R3 ------------------------------------------------------------------------------------
 	c.Rule("R3", "sorts used on consensus-relevant data are total or stable on a deterministic input order: every sort.Slice comparator in module code is listed with the reason its ties are harmless or absent", 6)
@@ -300,4 +306,138 @@ func totalComparator(v ssa.Value) bool {
 		}
 	}
 	return false
+}
+
+// ---- R4: address-formatting hazard ------------------------------------------------------------------
+
+// fmtVerbArgs pairs the verbs of a constant format string with the variadic arguments.
+func fmtVerbArgs(format string, args []ssa.Value) [][2]interface{} {
+	var out [][2]interface{}
+	ai := 0
+	for i := 0; i < len(format); i++ {
+		if format[i] != '%' {
+			continue
+		}
+		j := i + 1
+		for j < len(format) && strings.ContainsRune("+-# 0123456789.*[]", rune(format[j])) {
+			j++
+		}
+		if j >= len(format) {
+			break
+		}
+		verb := format[j]
+		i = j
+		if verb == '%' {
+			continue
+		}
+		if ai < len(args) {
+			out = append(out, [2]interface{}{string(verb), args[ai]})
+		}
+		ai++
+	}
+	return out
+}
+
+// printsAddress: formatting a value of type t with %v/%s/%+v can print a memory address.
+func printsAddress(t types.Type, depth int, top bool) bool {
+	if depth > 4 {
+		return false
+	}
+	if hasStringOrError(t) {
+		return false
+	}
+	switch u := t.Underlying().(type) {
+	case *types.Pointer:
+		if top {
+			// fmt prints &{…} for a top-level pointer to struct/array/slice/map, an address otherwise
+			switch u.Elem().Underlying().(type) {
+			case *types.Struct, *types.Array, *types.Slice, *types.Map:
+				return printsAddress(u.Elem(), depth+1, false)
+			}
+		}
+		return true
+	case *types.Chan, *types.Signature:
+		return true
+	case *types.Basic:
+		return u.Kind() == types.UnsafePointer
+	case *types.Struct:
+		for i := 0; i < u.NumFields(); i++ {
+			if printsAddress(u.Field(i).Type(), depth+1, false) {
+				return true
+			}
+		}
+	case *types.Array:
+		return printsAddress(u.Elem(), depth+1, false)
+	case *types.Slice:
+		return printsAddress(u.Elem(), depth+1, false)
+	case *types.Map:
+		return printsAddress(u.Elem(), depth+1, false) || printsAddress(u.Key(), depth+1, false)
+	case *types.Interface:
+		// dynamic value unknown: an interface-typed field may hold a pointer (the proto oneof idiom)
+		return !top
+	}
+	return false
+}
+
+func hasStringOrError(t types.Type) bool {
+	for _, tt := range []types.Type{t} {
+		ms := types.NewMethodSet(tt)
+		for i := 0; i < ms.Len(); i++ {
+			n := ms.At(i).Obj().Name()
+			if n == "String" || n == "Error" || n == "Format" || n == "GoString" {
+				return true
+			}
+		}
+	}
+	return false
+}
+
+func init() {
+	extraC18 = func(c *Ctx, fns []*ssa.Function) {
+		c.Rule("R4", "no address formatting: no %v/%+v/%s formatting (fmt.Errorf/Sprintf, errorsmod.Wrapf, …) of a value whose printed form contains a memory address (a by-value struct with pointer or interface fields and no String method, a nested pointer, chan or func)", 1)
+		n, bad := 0, 0
+		for _, f := range fns {
+			for _, cl := range AllCalls(f, false) {
+				name := calleeName(cl)
+				if !(strings.HasPrefix(name, "fmt.") || strings.HasPrefix(name, "cosmossdk.io/errors.")) {
+					continue
+				}
+				args := cl.Common().Args
+				if cl.Common().IsInvoke() {
+					continue
+				}
+				fi := -1
+				for i, a := range args {
+					if _, ok := constString(a); ok {
+						fi = i
+						break
+					}
+				}
+				if fi < 0 || fi+1 >= len(args) {
+					continue
+				}
+				format, _ := constString(args[fi])
+				for _, va := range fmtVerbArgs(format, variadicValues(args[fi+1])) {
+					verb := va[0].(string)
+					if verb != "v" && verb != "s" {
+						continue
+					}
+					v, _ := va[1].(ssa.Value)
+					if v == nil {
+						continue
+					}
+					n++
+					t := v.Type()
+					if mi, ok := v.(*ssa.MakeInterface); ok {
+						t = mi.X.Type()
+					}
+					if printsAddress(t, 0, true) {
+						bad++
+						c.Check(false, fk(topFn(f), "address-formatting", shortName(name)), cl, "formats a value of type "+t.String()+" with %"+verb+": its printed form contains a memory address")
+					}
+				}
+			}
+		}
+		c.Check(n >= 100, "module/format-arguments", nil, fmt.Sprintf("%d %%v/%%s format arguments examined, %d hazards", n, bad))
+	}
 }
